@@ -11,8 +11,8 @@ class Prop(SeqProp):
     model = "imap"
     allow_bad_op = True  # lookups after a rejected constructor are answered `bad-op` by both sides
     anchors = ["windpyutils/structures/maps.py", "windpyutils/structures/span_set.py"]
-    quick_cases = 2400
-    thorough_cases = 10000
+    quick_cases = 6000
+    thorough_cases = 60000
     rule = ("interval sets (touching, nested, degenerate single-point, inverted, unsorted; ints and halves, int/float mixed; "
             "values including None, 0, '', (), False) "
             "and probes at every end, every midpoint and in every gap; constructor outcome, lookups, `in`, len and iteration "
